@@ -27,6 +27,8 @@ pub fn v0() -> Vec<Val> {
         Val::s("b"),
         // a string that looks like a number is still a string
         Val::s("2"),
+        // not empty, hence true
+        Val::s(" "),
     ]
 }
 
@@ -48,6 +50,7 @@ pub fn column_values() -> Vec<(&'static str, Val)> {
         ("sa", Val::s("a")),
         ("sb", Val::s("b")),
         ("s2", Val::s("2")),
+        ("sp", Val::s(" ")),
     ]
 }
 
